@@ -13,6 +13,9 @@ import (
 type SoloShape struct {
 	// Shift moves every absolute instant of the run (clock epoch and previous block timestamp).
 	Shift time.Duration
+	// ShiftIncs adds that many timestamp increments of the drawn configuration to Shift (the increment is only
+	// known inside the script): offsets that are multiples of the increment but not of a millisecond or a second.
+	ShiftIncs int
 	// ClockOnly: only the injected clock is shifted; every input (previous block timestamp, the
 	// peers' proposals) is the one of the unshifted run - "the same sequence of calls".
 	ClockOnly bool
@@ -22,6 +25,7 @@ type SoloShape struct {
 
 // SoloOut is what a script run produced, in order.
 type SoloOut struct {
+	Shift   time.Duration // the offset actually applied (Shift + ShiftIncs increments)
 	S       *sim.Solo
 	Timer   []string // Timer.Reset/Extend arguments
 	Classes map[string]int
@@ -50,16 +54,17 @@ func RunSoloScript(r sim.Src, mons []*sim.Mon, keepLog bool, sh SoloShape) *Solo
 		amev = int64(startTip) + 2
 	}
 	epoch := drawEpoch(r)
+	shift := sh.Shift + time.Duration(int64(sh.ShiftIncs)*int64(inc))
 	base := make([]int, n)
 	for i := range base {
 		base[i] = i
 	}
 	cfg := sim.Cfg{IDs: n, Validators: func(uint32) []int { return base }, ValDesc: fmt.Sprintf("const[0..%d]", n-1), StartTip: startTip,
-		AMEVHeight: amev, TimePerBlock: tpb, TsIncrement: inc, Epoch: epoch.Add(sh.Shift)}
+		AMEVHeight: amev, TimePerBlock: tpb, TsIncrement: inc, Epoch: epoch.Add(shift)}
 	if r.Intn("dyn", 4) == 0 {
 		cfg.MaxTimePerBlock = tpb * time.Duration(2+r.Intn("dynratio", 3))
 	}
-	out := &SoloOut{Classes: map[string]int{}}
+	out := &SoloOut{Classes: map[string]int{}, Shift: shift}
 	tm := &sim.Mon{Name: "timerlog",
 		TimerReset: func(n *sim.Node, h uint32, v byte, d time.Duration) {
 			out.Timer = append(out.Timer, fmt.Sprintf("reset(%d,%d,%s)", h, v, d))
@@ -69,12 +74,12 @@ func RunSoloScript(r sim.Src, mons []*sim.Mon, keepLog bool, sh SoloShape) *Solo
 	s := sim.NewSolo(cfg, r, self, false, append([]*sim.Mon{tm}, mons...), keepLog)
 	out.S = s
 	nd := s.N
-	inShift := sh.Shift // how far the scripted inputs move with the clock
+	inShift := shift // how far the scripted inputs move with the clock
 	if sh.ClockOnly {
 		inShift = 0
 	}
 	inEpoch := uint64(epoch.Add(inShift).UnixNano())
-	inNow := func() uint64 { return uint64(nd.Now().Add(inShift - sh.Shift).UnixNano()) }
+	inNow := func() uint64 { return uint64(nd.Now().Add(inShift - shift).UnixNano()) }
 	// previous block timestamp: before / around / after the clock, not aligned
 	switch r.Intn("prevts", 4) {
 	case 0:
@@ -596,6 +601,13 @@ func RunWatchOnlySolo(r sim.Src, mons []*sim.Mon, keepLog bool) *sim.World {
 		var txs []vt.Tx
 		for j := r.Intn("ptx", 3); j > 0 && j <= len(s.W.Universe); j-- {
 			txs = append(txs, s.W.Universe[j-1])
+		}
+		if r.Intn("poisoned", 4) == 0 {
+			// a proposal whose block fails the node's verification callback (the transaction is in its pool)
+			tx := s.W.NewTx(true)
+			nd.AddTx(tx)
+			txs = append(txs, tx)
+			s.W.Stat("c13_rejected_proposal")
 		}
 		p := s.Proposal(k.v, s.NextTs(), uint64(100+len(pend)), txs...)
 		pend[k] = p
